@@ -84,10 +84,10 @@ def kahn_cases(tier, rng):
 
 
 def eval_topo(cases):
-    obs = vlib.run_harness("c20-topo", cases)
+    obs = vlib.run_harness("c20-topo", cases, per_case_timeout=10)
     sexps, index = [], []
     for c, o in zip(cases, obs):
-        if "panic" in o:
+        if "panic" in o or o.get("skipped"):
             continue
         for k, r in enumerate(o["runs"]):
             sexps.append(sx([r["adj"], r["req"], r["out"]]))
@@ -99,6 +99,8 @@ def eval_topo(cases):
     outs = []
     for c, o in zip(cases, obs):
         case = {k: c[k] for k in ("adj", "req")}
+        if o.get("skipped"):
+            continue
         if "panic" in o:
             outs.append(Outcome(case, False, False, detail={"impl": "PANIC " + o["panic"]}))
             continue
@@ -121,10 +123,10 @@ def eval_topo(cases):
 
 
 def eval_kahn(cases):
-    obs = vlib.run_harness("c20-kahn", cases)
+    obs = vlib.run_harness("c20-kahn", cases, per_case_timeout=10)
     sexps, index = [], []
     for c, o in zip(cases, obs):
-        if "panic" in o:
+        if "panic" in o or o.get("skipped"):
             continue
         for k, r in enumerate(o["runs"]):
             res = [r["out"]] if r["ok"] else None
@@ -135,6 +137,8 @@ def eval_kahn(cases):
     outs = []
     for c, o in zip(cases, obs):
         case = {k: c[k] for k in ("nodes", "deps")}
+        if o.get("skipped"):
+            continue
         if "panic" in o:
             outs.append(Outcome(case, False, False, detail={"impl": "PANIC " + o["panic"]}))
             continue
